@@ -311,6 +311,14 @@ class MoveEnv:
             self.leaves.append((path, move))
 
 
+def _composite_settings(move, spec):
+    """Documented tunables of the composite itself (the composite exchange move decides insert/delete once per call
+    with its own bias_towards_insert)."""
+    if "composite_bias" in spec and hasattr(move, "bias_towards_insert"):
+        move.bias_towards_insert = spec["composite_bias"]
+    return move
+
+
 def build_move(spec: dict, env: MoveEnv, path: str):
     import quansino.moves as qm
     from quansino.integrators import Verlet
@@ -330,13 +338,13 @@ def build_move(spec: dict, env: MoveEnv, path: str):
             out = items[-1]
             for it in reversed(items[:-1]):
                 out = it + out
-            return out
+            return _composite_settings(out, spec)
         out = items[0]
         for it in items[1:]:
             out = out + it
-        return out
+        return _composite_settings(out, spec)
     if t == "mul":
-        return build_move(spec["item"], env, f"{path}.x") * int(spec["n"])
+        return _composite_settings(build_move(spec["item"], env, f"{path}.x") * int(spec["n"]), spec)
     if t == "wrap":
         return qm.CompositeMove([build_move(s, env, f"{path}.{i}") for i, s in enumerate(spec["items"])])
     if t == "bare":
@@ -721,8 +729,8 @@ class World:
         np.seterr(all="ignore")
         try:
             for iseg, seg in enumerate(self.sc["steps"]):
-                if iseg:
-                    self._user_edits(iseg)
+                # (before_segment 0: after the simulation object was built, before it is run for the first time)
+                self._user_edits(iseg)
                 self._run_segment(seg)
                 if self.aborted:
                     break
@@ -749,6 +757,10 @@ class World:
                 else:
                     pos[[r for r in rows if r < len(pos)]] += sh
                 self.atoms.positions = pos
+            if ed.get("cell_scale") is not None:
+                # the user rescales the box (atoms follow) - pre-compression, or the real cell set after construction
+                self.atoms.set_cell(np.asarray(self.atoms.cell.array) * float(ed["cell_scale"]), scale_atoms=True)
+                self.result.count("fault.user_rescales_cell")
             if ed.get("relabel"):
                 # the user reconfigures the elementary moves HE built (the objects he holds) after composing them
                 rl = ed["relabel"]
